@@ -1,7 +1,12 @@
 /* C19 (StoreProof.cpp): leading-zero counter and STORE PoW validator */
+#ifdef UNIT_V   /* the validator and solver only: independent of how the bit counter is named or structured */
+#include "pow_store_v.c"
+#else
 #include "pow_store.c"
+#endif
 #include "clz.h"
 #include "common.h"
+#ifndef UNIT_V
 void h_clz(void)
 {
   uint8_t in_digest[32]; uint64_t in_n;
@@ -10,6 +15,7 @@ void h_clz(void)
   __CPROVER_assert(r == spec_clz(in_digest, in_n), "StoreProof count_leading_zero_bits == clz");
   CANARY_POINT();
 }
+#endif
 void h_store(void)
 {
   security__StoreWorkInput in_w; uint64_t in_nonce; uint8_t in_difficulty;
